@@ -31,8 +31,8 @@ ProgSet ==
 \* ---------- the renderer
 VARIABLES prog, tc, toks, pos, out, line, gap, starts
 vars == <<prog, tc, toks, pos, out, line, gap, starts>>
-Layouts == {"SP", "TAB", "NL", "CRNL", "CMT", "BL"}
-NLs(k) == CASE k \in {"NL", "CRNL", "CMT"} -> 1 [] k = "BL" -> 2 [] OTHER -> 0
+Layouts == {"SP", "TAB", "NL", "CRNL", "CR", "CMT", "BL"}          \* CR: a lone carriage return (old Mac line ending) is a line break too
+NLs(k) == CASE k \in {"NL", "CRNL", "CR", "CMT"} -> 1 [] k = "BL" -> 2 [] OTHER -> 0
 \* "sm" is a quoted string written over two lines (a raw line break between the quotes): the token itself moves the line
 TokNLs(t) == IF t[1] = "QSTR" /\ t[2][1] = "sm" THEN 1 ELSE 0
 
